@@ -48,7 +48,7 @@ func tsEq(a *timestamppb.Timestamp, sec int64, nanos int64) bool {
 // VerifC04Time: timestamp_format codecs: the wire form is the documented one and decoding
 // returns the instant up to the documented truncation of each format.
 func VerifC04Time() {
-	m := &TimeMsg{Id: verif.String("id", 2), Created: symTimestamp("created"), Updated: symTimestamp("updated"), Day: symTimestamp("day"), Plain: symTimestamp("plain")}
+	m := &TimeMsg{Id: verif.String("id", verif.L(2)), Created: symTimestamp("created"), Updated: symTimestamp("updated"), Day: symTimestamp("day"), Plain: symTimestamp("plain")}
 	data, err := m.MarshalJSON()
 	verif.Assert("C04/time/marshal-ok", err == nil)
 	verif.Assert("C05/time/wire=reference-mapping", verif.JEqual(data, refTimeMsg(m)))
